@@ -613,8 +613,8 @@ def c09(ck):
 def c10(ck):
     import os, glob, json
     ck.rule = ("model: FutureImpl.tla (body goroutine, 1-slot channels, done/cancelled flags, cancel's check-and-mark, deref's "
-               "take-and-redeposit) checked exhaustively by TLC for the 4 body kinds (returns, throws, sleeps honouring "
-               "cancellation, ignores cancellation) with 2 derefers, a canceller and caller-context expiry: P1..P7; the "
+               "take-and-redeposit) checked exhaustively by TLC for the 5 body kinds (returns, throws, sleeps honouring "
+               "cancellation, ignores cancellation, born under an ended context) with 2 derefers, a canceller and caller-context expiry: P1..P7; the "
                "pre-repair design's counterexamples (P4/P5 window) are recorded. real code: the model's counterexample "
                "schedule replayed deterministically through a gate at the delivery hook for each body kind, plus random "
                "schedules (2..6 threads of deref / done? / cancelled? / cancel, short caller deadlines); every recorded "
@@ -622,7 +622,7 @@ def c10(ck):
     # the repaired design for ANY number of deref threads: TLAPS proof over FutureImpl itself (Design = "fixed")
     ck.extra["tlaps_obligations_proved_FutureProof"] = ck.tlapm("FutureProof")
     q = ck.quick
-    for bk in ("value", "error", "sleeps", "ignores"):
+    for bk in ("value", "error", "sleeps", "ignores", "borndead"):
         for wc in ("TRUE", "FALSE"):
             c = cfg(constants={"DesignC": '"fixed"', "BodyKindC": '"%s"' % bk, "WithCancelC": wc, "CallerCtxEndsC": "TRUE"},
                     invariants=["P1", "P2", "P4", "P5", "P6"], props=["P3", "P7"]).replace("CHECK_DEADLOCK FALSE", "CHECK_DEADLOCK TRUE")
